@@ -579,7 +579,7 @@ class Spectrum(numpy.ma.masked_array):
         for pop_ii in tokeep:
             # Apply -1 factor to account for indexing in marginalize
             toremove.remove(pop_ii-1)
-        return self.marginalize(toremove)
+        return self.marginalize(toremove, mask_corners=mask_corners)
 
     def _counts_per_entry(self):
         """
